@@ -368,6 +368,21 @@ def do_fidelity(cx, name, st, ex, pt, idx):
             tau = me.gram_from_gauss(1, e["vecs"])
             F = me.fid_mixed_closed(ex, tau, "qubit")
             one(mb.Target(tau, "gram"), "one-qubit", me.Value(F, fid_tol_mixed(ex, F)), dict(vecs=e["vecs"]))
+            # a target that is ALMOST pure (purity 1 - O(1e-6)): one vector weighted 2^18 times the other.  Nothing
+            # is special about it: the same closed form, the same accuracy
+            K = 512
+            near = [[[K * c[0], K * c[1]] for c in e["vecs"][0]]] + [list(v) for v in e["vecs"][1:2]]
+            if len(near) == 2:
+                tau = me.gram_from_gauss(1, near)
+                F = me.fid_mixed_closed(ex, tau, "qubit")
+                one(mb.Target(tau, "gram"), "one-qubit:nearly-pure", me.Value(F, fid_tol_mixed(ex, F)), dict(vecs=near))
+        if n >= 2 and idx % 2 == 1:
+            # AUXILIARY: the same kind of almost pure target for more qubits, against the dense oracle
+            v1, v2 = rng.choice(lib.fid[n])["t"], rng.choice(lib.fid[n])["t"]
+            near = [[[512 * c[0], 512 * c[1]] for c in v1], list(v2)]
+            tau = me.gram_from_gauss(n, near)
+            F = mpmath.mpf(mb.uhlmann_dense(ex, tau))
+            one(mb.Target(tau, "gram"), "nearly-pure[auxiliary-dense-oracle]", me.Value(F, fid_tol_mixed(ex, F) * 2 + 1e-7), dict(vecs=near))
         if cx.tier == "thorough" or n >= 2 and idx % 3 == 0:
             # AUXILIARY: general PSD target against an independent dense eigh formula
             tau, vecs = gram_of(lib, n, rng, rng.randint(2, ex.N))
